@@ -247,7 +247,7 @@ fn roundtrip<T: SerdeAPI + Clone>(ctx: &mut Ctx, ty: &str, state: &str, x: &T) -
         // the reloaded object carries the same data
         let yv_ = yv(&y);
         let ok = if f == "json" { y_approx(&xv, &yv_, 4e-16) } else { xv == yv_ || y_approx(&xv, &yv_, 0.0) };
-        if !ok {
+        if !ok && !state.contains("constructor caches not yet refreshed") {
             ctx.violate("reload_equal", &format!("C17:{f}:reload_differs:{ty}"), format!("{ty} [{state}] {f}: reloaded object differs from the original"), json!({"type": ty, "state": state}));
         }
         out.push((f, y));
@@ -300,7 +300,7 @@ fn file_roundtrip<T: SerdeAPI + Clone>(ctx: &mut Ctx, ty: &str, state: &str, x: 
                 ctx.count("obs.file_roundtrips_ok");
                 let yv_ = yv(&y);
                 let ok = if *ext == "json" { y_approx(xv, &yv_, 4e-16) } else { *xv == yv_ || y_approx(xv, &yv_, 0.0) };
-                if !ok {
+                if !ok && !state.contains("constructor caches not yet refreshed") {
                     ctx.violate("reload_equal", &format!("C17:file:{ext}:reload_differs:{ty}"), format!("{ty} [{state}] file.{ext}: object read back from the file differs from the one written"), json!({"type": ty, "state": state, "previous_file_len": prev, "file_len": len}));
                 }
             }
@@ -371,22 +371,37 @@ impl Sim for SpeedLimitTrainSim {
 }
 
 fn run_to_end<S: Sim>(s: &mut S, max: usize) -> usize {
+    run_to_end_how(s, max).0
+}
+
+/// steps completed, and how the run ended: Some(true) = a step failed, Some(false) = finished, None = budget reached
+fn run_to_end_how<S: Sim>(s: &mut S, max: usize) -> (usize, Option<bool>) {
     let mut n = 0;
     while n < max {
         match s.step_once() {
             Ok(true) => n += 1,
-            _ => break,
+            Ok(false) => return (n, Some(false)),
+            Err(_) => return (n, Some(true)),
         }
     }
-    n
+    (n, None)
 }
 
 fn checkpoints<S: Sim>(ctx: &mut Ctx, sim0: &S, max_steps: usize) {
+    checkpoints_opt(ctx, sim0, max_steps, false)
+}
+
+/// `stale_caches_at_start`: the object was re-equipped after construction, so values its constructor cached (and
+/// every step refreshes) may differ from what loading recomputes; before the first step only behaviour is compared
+fn checkpoints_opt<S: Sim>(ctx: &mut Ctx, sim0: &S, max_steps: usize, stale_caches_at_start: bool) {
     // uninterrupted reference
     // count the steps that succeed, then build the reference from exactly those steps (a failing
     // step attempt half-updates published limits and is not part of any completed trajectory)
     let mut probe = sim0.clone();
-    let total = run_to_end(&mut probe, max_steps);
+    // did the uninterrupted run stop because a step failed (as opposed to finishing or reaching the budget)?
+    // (taken from the first attempt of that step: a failed attempt half-updates the object, a second one may differ)
+    let (total, how) = run_to_end_how(&mut probe, max_steps);
+    let stopped_by_error = how == Some(true);
     let mut reference = sim0.clone();
     run_to_end(&mut reference, total);
     let refv = yv(&reference);
@@ -400,7 +415,7 @@ fn checkpoints<S: Sim>(ctx: &mut Ctx, sim0: &S, max_steps: usize) {
         if c > 0 {
             let _ = cur.step_once();
         }
-        let state = if c == 0 { "before first step".to_string() } else { format!("after {c} of {total} steps") };
+        let state = if c == 0 { if stale_caches_at_start { "before first step (constructor caches not yet refreshed)".to_string() } else { "before first step".to_string() } } else { format!("after {c} of {total} steps") };
         for (f, mut y) in roundtrip(ctx, S::NAME, &state, &cur) {
             ctx.count("obs.checkpoints");
             // the resumed copy runs exactly the steps the uninterrupted run still had to do
@@ -408,6 +423,18 @@ fn checkpoints<S: Sim>(ctx: &mut Ctx, sim0: &S, max_steps: usize) {
             if done != total - c {
                 ctx.violate("resume_equals_uninterrupted", &format!("C17:{f}:resume_stops_early:{}", S::NAME),
                     format!("{} saved {state} as {f}: the resumed copy stopped after {done} of the remaining {} steps", S::NAME, total - c), json!({"checkpoint": c, "total_steps": total, "format": f}));
+            }
+            // ... and ends the same way: where the uninterrupted run was stopped by a failing step, the resumed
+            // copy fails at that step too, and where it was not, the resumed copy does not fail either
+            if done == total - c && how.is_some() {
+                let mut probe_y = y.clone();
+                let fails = matches!(probe_y.step_once(), Err(_));
+                ctx.count("obs.resumed_runs_probed_at_the_end_of_the_original");
+                if fails != stopped_by_error {
+                    ctx.violate("resume_equals_uninterrupted", &format!("C17:{f}:resume_ends_differently:{}", S::NAME),
+                        format!("{} saved {state} as {f}: after the {total} steps of the uninterrupted run the next step {} in the original but {} in the resumed copy", S::NAME, if stopped_by_error { "fails" } else { "does not fail" }, if fails { "fails" } else { "does not fail" }),
+                        json!({"checkpoint": c, "total_steps": total, "format": f}));
+                }
             }
             let yv_ = yv(&y);
             let ok = if f == "json" { y_approx(&refv, &yv_, 1e-9) } else { y_approx(&refv, &yv_, 0.0) };
@@ -490,6 +517,13 @@ pub fn run_c17(ctx: &mut Ctx, rng: &mut Rng, _t: bool) {
                 off_window_soc(r, rng);
             }
             roundtrip(ctx, "Locomotive(battery)", "generated, soc outside window", &lb);
+            // limits switched off (a non-default flag that must survive a round trip)
+            let mut lo = gp::locomotive(rng, kk);
+            lo.assert_limits = false;
+            roundtrip(ctx, "Locomotive", "generated, assert_limits off", &lo);
+            let mut co = gp::consist(rng, 3).0;
+            co.set_assert_limits(false);
+            roundtrip(ctx, "Consist", "generated, assert_limits off", &co);
             roundtrip(ctx, "Consist", "default", &Consist::default());
             let n = rng.usize(1, 5);
             roundtrip(ctx, "Consist", "generated", &gp::consist(rng, n).0);
@@ -567,8 +601,28 @@ pub fn run_c17(ctx: &mut Ctx, rng: &mut Rng, _t: bool) {
             con.loco_vec.iter_mut().for_each(mid_soc);
             let rating: f64 = con.loco_vec.iter().map(|l| l.get_pwr_rated().value).sum();
             let n = rng.usize(8, 30);
-            let sim = ConsistSimulation::new(con, short_power_trace(rng, rating, n, false), interval);
-            checkpoints(ctx, &sim, 100);
+            // a third of the consists were first built around one placeholder unit and then given their real units
+            // (set_loco_vec), and are braked hard: limits cached at construction must not outlive the units
+            let re_equipped = rng.chance(0.33);
+            let trace = if re_equipped {
+                let pdct = con.pdct.clone();
+                let mut rebuilt = Consist::new(vec![Locomotive::default()], None, pdct);
+                rebuilt.set_loco_vec(con.loco_vec.clone());
+                con = rebuilt;
+                ctx.count("obs.checkpointed_consists_re-equipped_through_set_loco_vec");
+                let mut t = vec![0.0];
+                let mut p = vec![0.0];
+                for k in 1..=n {
+                    t.push(t[k - 1] + 1.0);
+                    p.push(rating * if k % 3 == 0 { -rng.range(0.2, 0.9) } else { rng.range(0.0, 0.05) });
+                }
+                let len = t.len();
+                PowerTrace::new(t, p, vec![Some(true); len])
+            } else {
+                short_power_trace(rng, rating, n, false)
+            };
+            let sim = ConsistSimulation::new(con, trace, interval);
+            checkpoints_opt(ctx, &sim, 100, re_equipped);
             roundtrip(ctx, "ConsistSimulation", "default", &ConsistSimulation::default());
         }
         9 | 10 => {
